@@ -2,13 +2,20 @@ package props
 
 import (
 	"bytes"
+	"compress/gzip"
 	"context"
 	"fmt"
+	"math/rand"
 	"os"
 	"os/exec"
 	"path/filepath"
+	"strings"
 	"syscall"
 	"time"
+
+	"github.com/evolbioinfo/gotree/io/nexus"
+	"github.com/evolbioinfo/gotree/io/phyloxml"
+	"github.com/evolbioinfo/gotree/tree"
 )
 
 // cliRes is the observation of one execution of the real gotree binary.
@@ -86,4 +93,62 @@ func readTmp(c *Ctx, name string) string {
 		return ""
 	}
 	return string(b)
+}
+
+// presentTrees offers the same Newick trees to a command in one of several input modes: a plain file, a gzipped
+// file, standard input (the documented default of the input option), or - when the texts carry nothing that the
+// other formats cannot hold - a Nexus or PhyloXML file together with --format. It returns the arguments that
+// replace "-i <file>" and the bytes for stdin.
+func presentTrees(c *Ctx, r *rand.Rand, base string, texts []string, plain bool) (args []string, stdin string, mode string) {
+	doc := strings.Join(texts, "\n") + "\n"
+	modes := []string{"file", "file", "gz", "stdin"}
+	if plain {
+		modes = append(modes, "nexus", "phyloxml")
+	}
+	mode = modes[r.Intn(len(modes))]
+	switch mode {
+	case "stdin":
+		return nil, doc, mode
+	case "gz":
+		var b bytes.Buffer
+		z := gzip.NewWriter(&b)
+		_, _ = z.Write([]byte(doc))
+		_ = z.Close()
+		p := filepath.Join(c.Tmp, base+".nw.gz")
+		if err := os.WriteFile(p, b.Bytes(), 0o644); err != nil {
+			panic(err)
+		}
+		return []string{"-i", p}, "", mode
+	case "nexus", "phyloxml":
+		var ts []*tree.Tree
+		for _, s := range texts {
+			t, err := parseNewick(s)
+			if err != nil {
+				return []string{"-i", tmpFile(c, base+".nw", doc)}, "", "file"
+			}
+			ts = append(ts, t)
+		}
+		var out string
+		var err error
+		if mode == "nexus" {
+			out, err = nexus.WriteNexus(chanOf(ts...), r.Intn(2) == 0)
+		} else {
+			out, err = phyloxml.WritePhyloXML(chanOf(ts...))
+		}
+		if err != nil {
+			return []string{"-i", tmpFile(c, base+".nw", doc)}, "", "file"
+		}
+		ext := map[string]string{"nexus": ".nex", "phyloxml": ".xml"}[mode]
+		return []string{"-i", tmpFile(c, base+ext, out), "--format", mode}, "", mode
+	}
+	return []string{"-i", tmpFile(c, base+".nw", doc)}, "", "file"
+}
+
+// plainNewick tells whether a Newick text only uses what Nexus and PhyloXML can carry as well
+// (simple labels, no comments, no p-values).
+func plainNewick(text string) bool {
+	if strings.ContainsAny(text, "[]'\"<>&= \t\n\r/") {
+		return false
+	}
+	return strings.Count(text, ";") == 1
 }
